@@ -749,31 +749,6 @@ impl<NumericTypes: EvalexprNumericTypes> Node<NumericTypes> {
     }
 }
 
-fn collapse_root_stack_to<NumericTypes: EvalexprNumericTypes>(
-    root_stack: &mut Vec<Node<NumericTypes>>,
-    mut root: Node<NumericTypes>,
-    collapse_goal: &Node<NumericTypes>,
-) -> EvalexprResult<Node<NumericTypes>, NumericTypes> {
-    loop {
-        if let Some(mut potential_higher_root) = root_stack.pop() {
-            // TODO I'm not sure about this >, as I have no example for different sequence operators with the same precedence
-            if potential_higher_root.operator().precedence() > collapse_goal.operator().precedence()
-            {
-                potential_higher_root.children.push(root);
-                root = potential_higher_root;
-            } else {
-                root_stack.push(potential_higher_root);
-                break;
-            }
-        } else {
-            // This is the only way the topmost root node could have been removed
-            return Err(EvalexprError::UnmatchedRBrace);
-        }
-    }
-
-    Ok(root)
-}
-
 fn collapse_all_sequences<NumericTypes: EvalexprNumericTypes>(
     root_stack: &mut Vec<Node<NumericTypes>>,
 ) -> EvalexprResult<(), NumericTypes> {
@@ -934,10 +909,25 @@ pub(crate) fn tokens_to_operator_tree<NumericTypes: EvalexprNumericTypes>(
                                 unreachable!()
                             }
                         } else {
-                            // If the new sequence doesn't have a higher precedence, then all sequences with a higher precedence are collapsed below this one
-                            root = collapse_root_stack_to(&mut root_stack, root, &node)?;
-                            node.children.push(root);
-                            root_stack.push(node);
+                            // If the new sequence doesn't have a higher precedence, then the current sequence is complete.
+                            // It becomes an element of the enclosing sequence of the new kind if there is one, and otherwise the first element of a new sequence.
+                            if let Some(mut parent) = root_stack.pop() {
+                                if mem::discriminant(parent.operator())
+                                    == mem::discriminant(node.operator())
+                                {
+                                    parent.children.push(root);
+                                    parent.children.push(Node::root_node());
+                                    root_stack.push(parent);
+                                } else {
+                                    node.children.push(root);
+                                    node.children.push(Node::root_node());
+                                    root_stack.push(parent);
+                                    root_stack.push(node);
+                                }
+                            } else {
+                                // This is the only way the topmost root node could have been removed
+                                return Err(EvalexprError::UnmatchedRBrace);
+                            }
                         }
                     }
                 // println!("Stack after sequence operation: {:?}", root_stack);
